@@ -143,12 +143,14 @@ def _attack(col, ctx, np, shard, only):
                               {'key': key.tolist(), 'sf': sfname})
             bss = [N // 4 + 1, N // 2, N, 3 * N]
             if tier == 'quick': bss = [N // 4 + 1, N] if ki == 0 else [N // 2, 3 * N]
-            for bs in bss:
-                case = {'cipher': cipher, 'sf': sfname, 'attack': att, 'key': key.tolist(), 'batch_size': bs, 'model': model}
-                label = '%s %s %s key=%s batch_size=%d' % (att, cipher, sfname, bytes(key.tolist()).hex(), bs)
+            for bi_, bs in enumerate(bss):
+                # every other configuration asks for intermediate results on the way (convergence step that does not divide the number of traces): the final ranking is the same attack
+                cstep = (N // 3 + 1) if bi_ % 2 == 1 else None
+                case = {'cipher': cipher, 'sf': sfname, 'attack': att, 'key': key.tolist(), 'batch_size': bs, 'model': model, 'convergence_step': cstep}
+                label = '%s %s %s key=%s batch_size=%d convergence_step=%s' % (att, cipher, sfname, bytes(key.tolist()).hex(), bs, cstep)
                 try:
                     with asys.BatchSize(bs):
-                        scores, wlist = _run_attack(np, scared, att, SF, mo, model, ths, words, cipher, nguess, tag, inter, traces, N)
+                        scores, wlist = _run_attack(np, scared, att, SF, mo, model, ths, words, cipher, nguess, tag, inter, traces, N, cstep)
                 except Exception as e:
                     col.violation('C17/%s/%s/%s/raised' % (att, cipher, sfname), '%s: %s %s' % (label, type(e).__name__, str(e)[:200]), case); continue
                 col.transitions += 1
@@ -168,23 +170,24 @@ def _attack(col, ctx, np, shard, only):
                         col.violation('C17/%s/%s/%s/argmax-not-expected-key' % (att, cipher, sfname), '%s: word %d: argmax %d but compute_expected_key gives %d' % (label, w, best, int(ek[w])), dict(case, word=w))
                     elif not (margin > 0):
                         col.violation('C17/%s/%s/%s/tie' % (att, cipher, sfname), '%s: word %d: the true key does not lead strictly (margin %.3g)' % (label, w, margin), dict(case, word=w))
-                col.outcomes.add((att, cipher, sfname, size, ki, bs))
+                col.outcomes.add((att, cipher, sfname, size, ki, bs, cstep))
             col.sample({'attack': att, 'selection_function': '%s.%s' % (cipher, sfname), 'key': key.tolist(), 'true_round_key_words': true.tolist(), 'traces': int(N)}, limit=1)
     col.guard(col.evaluations > 0, 'vacuity: nothing attacked')
 
 
-def _run_attack(np, scared, att, SF, mo, model, ths, words, cipher, nguess, tag, inter, traces, N):
+def _run_attack(np, scared, att, SF, mo, model, ths, words, cipher, nguess, tag, inter, traces, N, cstep=None):
     """-> (scores per attacked word: list of arrays over guesses, list of words)"""
     cont = scared.Container(ths)
     if att in ('cpa', 'dpa', 'anova', 'nicv', 'snr', 'mia'):
         sf = SF(words=words) if len(words) != (16 if cipher == 'aes' else 8) else SF()
-        if att == 'cpa': a = scared.CPAAttack(selection_function=sf, model=mo, discriminant=scared.nanmax)     # signed: HW(x ^ g) and HW(x ^ ~g) are exactly anti-correlated
-        elif att == 'dpa': a = scared.DPAAttack(selection_function=sf, model=mo, discriminant=scared.maxabs)
+        ckw = {} if cstep is None else {'convergence_step': cstep}
+        if att == 'cpa': a = scared.CPAAttack(selection_function=sf, model=mo, discriminant=scared.nanmax, **ckw)     # signed: HW(x ^ g) and HW(x ^ ~g) are exactly anti-correlated
+        elif att == 'dpa': a = scared.DPAAttack(selection_function=sf, model=mo, discriminant=scared.maxabs, **ckw)
         else:
             parts = list(range(9)) if cipher == 'aes' else list(range(5))
             if isinstance(mo, scared.Monobit): parts = [0, 1] if att == 'mia' else None
             C = {'anova': scared.ANOVAAttack, 'nicv': scared.NICVAttack, 'snr': scared.SNRAttack, 'mia': scared.MIAAttack}[att]
-            kw = dict(selection_function=sf, model=mo, discriminant=scared.nanmax, partitions=parts)
+            kw = dict(selection_function=sf, model=mo, discriminant=scared.nanmax, partitions=parts, **ckw)
             if att == 'mia':
                 hi = float(max(parts)) + 0.5
                 kw['bin_edges'] = np.linspace(-0.5, hi, int(hi + 0.5) + 1)
